@@ -15,7 +15,7 @@ from ..core import rule, AnalysisError
 from ..engine import flow
 from ..engine import pattern as P
 from ..engine.facts import dotted, const, src, walk_func, str_value, enclosing_stmt, ancestors
-from .common import calls, raise_names, contains, pn, access_paths
+from .common import calls, raise_names, contains, pn, access_paths, assigned_from
 from . import c12  # line-split-agreement is registered for C11 there
 
 PARSERS = {"ast.PythonCode", "ast.PythonFragment", "ast.ArgumentList", "ast.FunctionDecl", "ast.FunctionArgs",
@@ -289,18 +289,20 @@ def same_on_all_paths(ctx):
     c = calls(ti, "_compile_text")
     ctx.check(bool(c) and [src(a) for a in c[0].args] == ["self", "text", "filename"], "string-path", db.where(ti), "string templates are compiled without their filename", "_compile_text(self, text, filename)")
     cf = db.func("template.Template._compile_from_file")
+    fnp = pn(cf, 2)
+    dvs = assigned_from(cf, "util.read_file(%s)" % fnp)
     for c in calls(cf, "_compile_text"):
-        ctx.check([src(a) for a in c.args] == ["self", "data", "filename"], "file-path", db.where(c), "file templates compiled as %s" % src(c), "_compile_text(self, data, filename)")
-    for c in calls(cf, "_compile_module_file"):
-        ctx.check([src(a) for a in c.args][:3] == ["self", "data", "filename"], "module-path:%d" % c.lineno, db.where(c), "module-directory templates compiled as %s" % src(c), "_compile_module_file(self, data, filename, ...)")
+        ctx.check(len(c.args) == 3 and src(c.args[0]) == "self" and src(c.args[1]) in dvs and src(c.args[2]) == fnp, "file-path", db.where(c), "file templates compiled as %s" % src(c), "_compile_text(self, data, filename)")
+    for i_, c in enumerate(calls(cf, "_compile_module_file")):
+        ctx.check(len(c.args) >= 3 and src(c.args[0]) == "self" and src(c.args[1]) in dvs and src(c.args[2]) == fnp, "module-path:%d" % i_, db.where(c), "module-directory templates compiled as %s" % src(c), "_compile_module_file(self, data, filename, ...)")
     cm = db.func("template._compile")
     lx = calls(cm, "template.lexer_cls")
     cg = calls(cm, "codegen.compile")
-    ctx.check(bool(lx) and src(lx[0].args[1]) == "filename" and bool(cg) and src(cg[0].args[2]) == "filename", "filename-threaded", db.where(cm), "filename is not handed to both lexer and code generator", "lexer and generator get filename")
+    ctx.check(bool(lx) and src(lx[0].args[1]) == pn(cm, 2) and bool(cg) and src(cg[0].args[2]) == pn(cm, 2), "filename-threaded", db.where(cm), "filename is not handed to both lexer and code generator", "lexer and generator get filename")
     li = db.func("lexer.Lexer.__init__")
-    ctx.check("self.filename = filename" in src(li) and "parsetree.TemplateNode(self.filename)" in src(li), "lexer-filename", db.where(li), "the lexer does not keep the filename", "lexer keeps filename")
+    ctx.check(P.has(li, "self.filename = %s" % pn(li, 2)) and P.has(li, "parsetree.TemplateNode(self.filename)"), "lexer-filename", db.where(li), "the lexer does not keep the filename", "lexer keeps filename")
     ld = db.func("lookup.TemplateLookup._load")
-    ctx.check("filename=posixpath.normpath(filename)" in src(ld), "lookup-path", db.where(ld), "lookup-loaded templates get no filename", "lookup passes the source file name")
+    ctx.check(any(k_.arg == "filename" and P.matches(k_.value, "posixpath.normpath(%s)" % pn(ld, 1)) for c_ in calls(ld, "Template") for k_ in c_.keywords), "lookup-path", db.where(ld), "lookup-loaded templates get no filename", "lookup passes the source file name")
     rt = db.func("exceptions.RichTraceback.__init__")
     t = src(rt)
     ctx.check("isinstance(self.error, (CompileException, SyntaxException))" in t and "self.source = self.error.source" in t and "self.lineno = self.error.lineno" in t, "richtraceback", db.where(rt), "RichTraceback does not take source and line from a compile-time exception", "source/lineno from the exception")
@@ -308,4 +310,4 @@ def same_on_all_paths(ctx):
         fn = db.func("exceptions.%s.__init__" % cls)
         stored = {dotted(s.targets[0])[5:] for s in walk_func(fn) if isinstance(s, ast.Assign) and (dotted(s.targets[0]) or "").startswith("self.")}
         ctx.check({"lineno", "pos", "filename", "source"} <= stored, "exception-fields:" + cls, db.where(fn), "%s stores %s" % (cls, sorted(stored)), "stores lineno, pos, filename, source")
-        ctx.check("_format_filepos(lineno, pos, filename)" in src(fn), "exception-message:" + cls, db.where(fn), "%s message does not name file and line" % cls, "message names file, line, column")
+        ctx.check(P.has(fn, "_format_filepos(%s, %s, %s)" % (pn(fn, 3), pn(fn, 4), pn(fn, 5))), "exception-message:" + cls, db.where(fn), "%s message does not name file and line" % cls, "message names file, line, column")
